@@ -1,12 +1,13 @@
 (* C02 — unbonding payout: exactly once, exact amount, never before maturity.
    Proved about the queue: what an undelegation enqueues, and that the end of
    block removes exactly the buckets whose completion time is strictly before the
-   block time (in every reachable state).  The payout amounts and recipients are
-   checked by check_C02 on implementation traces and by exact correspondence of
-   the queue, the index and every user balance (partial). *)
+   block time (in every reachable state); the payout equals, per account and denom,
+   the matured balances recorded for that account (C02_payout_exact); entries are
+   filed under their own delegator with their index key.  Removal of the index keys
+   of paid entries is checked by check_C02 on implementation traces (partial). *)
 From Coq Require Import ZArith List Bool.
 From Alliance Require Import Num KMap Types Monad Model Step Spec Hoare.
-From Alliance.Proofs Require Import SortedInv Queues.
+From Alliance.Proofs Require Import SortedInv Queues Payout IndexSync SlashQueue.
 Import ListNotations.
 Open Scope Z_scope.
 
@@ -29,6 +30,24 @@ Theorem C02_exactly_the_matured_buckets_leave : forall h, let s := run init_stat
   end.
 Proof. intros h s. apply complete_unbondings_spec, reachable_Sorted. Qed.
 Print Assumptions C02_exactly_the_matured_buckets_leave.
+
+(* the payout: in every reachable state, when CompleteUnbondings returns normally, every account other than
+   the custody account has received, per denom, exactly the balances of the matured entries recorded for it *)
+Theorem C02_payout_exact : forall h u d, u <> ACC_ALLIANCE -> let s := run init_state h in
+  match complete_unbondings s with
+  | Ok _ s' => bal s' u d = bal s u d + matured_for s (now s) u d
+  | _ => True
+  end.
+Proof. exact payout_exact. Qed.
+Print Assumptions C02_payout_exact.
+
+(* while pending, the only thing that changes an entry is a slash of its validator, by exactly floor(f x balance)
+   (C07_unbondings_slashed_exactly_once), and every entry is filed under its own delegator with its index key *)
+Theorem C02_entry_is_filed_under_its_delegator : forall h ct dl l u,
+  kget (undelq (run init_state h)) [ct; dl] = Some l -> In u l ->
+  u_del u = dl /\ kget (undelidx (run init_state h)) [u_val u; ct; u_denom u; dl] = Some tt.
+Proof. exact index_sync. Qed.
+Print Assumptions C02_entry_is_filed_under_its_delegator.
 
 (* maturity is strict: a bucket completing exactly at the block time stays *)
 Theorem C02_strict : forall t del l, undel_matured t ([t; del], l) = false.
